@@ -1,6 +1,15 @@
-//! C16 — stub: correspondence harness not built yet.
+//! C16 — probe version
 use crate::Ctx;
+use std::panic::{catch_unwind, AssertUnwindSafe};
+use tantivy_query_grammar::{parse_query, parse_query_lenient};
 
 pub fn run(ctx: &mut Ctx) {
+    if let Ok(p) = std::env::var("C16_PROBE") {
+        for line in std::fs::read_to_string(p).unwrap().lines() {
+            let s = catch_unwind(AssertUnwindSafe(|| parse_query(line)));
+            let l = catch_unwind(AssertUnwindSafe(|| parse_query_lenient(line)));
+            eprintln!("{line:?}\n   strict  {:?}\n   lenient {:?}", s.map_err(|_| "PANIC"), l.map_err(|_| "PANIC"));
+        }
+    }
     ctx.report.notes.push("C16: harness not built yet".into());
 }
